@@ -2,6 +2,7 @@
 //! sequential code of nuts-rs). One sub-command per property id.
 
 mod common;
+mod c06;
 mod c17;
 
 use mc_core::Tier;
@@ -30,8 +31,13 @@ fn main() {
         }
     }
     let tier = Tier::from_env_or(tier_arg.as_deref());
+    if std::env::var("VERIF_SHOW_PANICS").is_err() {
+        // panics of the code under test are caught and judged by the checks; keep stderr readable
+        std::panic::set_hook(Box::new(|_| {}));
+    }
     // A panic that escapes a check is a machinery error, never a verdict.
     let res = std::panic::catch_unwind(|| match id.as_str() {
+        "C06" => c06::run(tier, replay),
         "C17" => c17::run(tier, replay),
         _ => {
             eprintln!("MACHINERY-ERROR: unknown property id {id}");
